@@ -6,7 +6,7 @@ from .core import fr, frs, dhex
 from .runner import Case
 from . import props_mixed
 
-GROUP = dict(name='alg', sources=['h_alg.cpp'], repo_sources=['util/Pauli.C'], driver='alg')
+GROUP = dict(name='alg', sources=['h_alg.cpp'], repo_sources=['util/Pauli.C'], driver='alg', flags=('-pthread',))
 
 
 def cxs(g, n): return g.rats(2 * n)
@@ -297,6 +297,8 @@ def gen_C15(g, tier):
         cs.append(Case('j.trace %s' % frs(g.rats(8)), 'cmp', 'random'))
         cs.append(Case('o.c15.inner %s %s %s %s' % (frs(a), frs(b), frs(c), fr(s)), 'orc', 'random'))
         cs.append(Case('o.c15.outer %s %s %s %s' % (frs(a), frs(b), frs(c), fr(s)), 'orc', 'random'))
+    for _ in range(3 if tier == 'quick' else 40):
+        cs.append(Case('o.c15.manyouter %s' % frs(g.rats(96)), 'orc', 'twelve-results-alive-at-once'))
     return cs
 
 
@@ -412,6 +414,9 @@ def gen_C02(g, tier):
         b1, b2 = g.choice(ells + named), g.choice(ells + named); s_, j_ = g.rats(4), g.rats(8)
         chk = None if b2 in named else small_rel(1e-11, s_, (j_, 4))
         cs.append(Case('o.c02.transform2 %s %s %s %s' % (b1, frs(s_), frs(j_), b2), 'orc', 'same-matrix-across-basis-change', check=chk))
+    # the basis is process-wide: set on one thread, used on another (sequentially)
+    for _ in range(6 if tier == 'quick' else 100):
+        cs.append(Case('o.c02.thread %s %s %s %s' % (g.choice(named), frs(g.rats(4)), frs(g.rats(8)), g.choice(ells + named)), 'orc', 'basis-set-on-one-thread-used-on-another'))
     # histories that contain refused settings (set_basis throws for the enumerator Elliptical and for unknown codes): the two
     # directions of the conversion must stay mutually consistent, in whatever basis the object is left
     for _ in range(8 if tier == 'quick' else 150):
